@@ -18,6 +18,7 @@ import (
 	"io"
 	"mime"
 	"mime/multipart"
+	"net"
 	"net/http"
 	"net/url"
 	"os"
@@ -26,6 +27,7 @@ import (
 	"strconv"
 	"strings"
 	"sync"
+	"syscall"
 	"testing"
 	"time"
 
@@ -42,6 +44,13 @@ type c10Err struct {
 
 func (e *c10Err) Error() string { return "c10-" + e.kind + "-" + strconv.Itoa(e.attempt) }
 func (e *c10Err) Unwrap() error { return e.wrap }
+
+// Timeout: the tag must not hide what kind of error it carries from code that asks the net.Error
+// way (`interface{ Timeout() bool }`, os.IsTimeout) instead of errors.Is.
+func (e *c10Err) Timeout() bool {
+	var t interface{ Timeout() bool }
+	return e.wrap != nil && errors.As(e.wrap, &t) && t.Timeout()
+}
 
 // c10Ctx is the request's context: the harness decides when and how it becomes done
 // (cancelled by the caller, or its deadline passed).
@@ -121,7 +130,35 @@ type c10Case struct {
 	// … not the function itself: another goroutine, while the wait that follows is in progress
 	// (same observable behaviour: the model line is the same)
 	ivxWait bool
+	// round 5: the body KIND changes while the call is in flight — an OnBeforeRequest middleware
+	// installs an io.Reader body (`R<text>@<j>`) or a non-rewindable file reader (`F<text>@<j>`) when
+	// it sees attempt number j (hooks do the same with actions R<hex> / F<hex>)
+	pre string
+	// round 5: how script position k is REALISED by the scripted transport — "<cause>/<ctx>" with a
+	// real error value of that kind (net/http's Client.Timeout error, a dial timeout of package
+	// net, a connection reset, the context's own errors) and the state the request's context is
+	// left in; "" = the plain realisation of the symbol
+	real []string
+	// multipart written through a pipe (EnableForceChunkedEncoding) instead of a buffer: same wire content
+	chunked bool
 }
+
+// brokenContract: an upload whose caller-written GetFileContent hands out the same NON-seekable
+// reader every time: retries upload an empty part (the caller's side of the contract; modelled,
+// exempt from the "all attempts identical" oracles).
+func (tc *c10Case) brokenContract() bool {
+	for _, f := range tc.files {
+		if f.kind == "q" {
+			return true
+		}
+	}
+	return false
+}
+
+// c10Shared is a caller-owned reader handed out by GetFileContent on every call: Close does nothing.
+type c10Shared struct{ io.ReadSeeker }
+
+func (c10Shared) Close() error { return nil }
 
 // dynamic: the retry option / context is edited while the call is in flight, or the Request is re-sent.
 func (tc *c10Case) dynamic() bool {
@@ -221,6 +258,11 @@ func (tc *c10Case) line(lane, mask string, obs []int64) string {
 	if tc.ivx > 0 {
 		ivx = strconv.Itoa(tc.ivx)
 	}
+	pre := "-"
+	if tc.pre != "" {
+		body, at, _ := strings.Cut(tc.pre[1:], "@")
+		pre = tc.pre[:1] + verifh.Hex(body) + "@" + at
+	}
 	urlT, rawQ := tc.urlTemplate()
 	script := make([]string, len(tc.script))
 	sets := make([]string, len(tc.script))
@@ -242,7 +284,7 @@ func (tc *c10Case) line(lane, mask string, obs []int64) string {
 		c10Pairs(tc.cCookies), c10Multi(tc.cHeaders), c10Multi(tc.cForm), c10Multi(tc.cQuery), b2(tc.allowGet),
 		verifh.Hex(tc.method), urlT, c10Pairs(tc.cookies), c10Multi(tc.headers), c10Multi(tc.form),
 		c10Pairs(tc.ordered), c10Multi(tc.query), b2(tc.multipart), files, body, tc.resendTok(), ivx,
-		c10Pairs(rawQ), c10Pairs(tc.pathParams), c10Pairs(tc.cPathParams), verifh.Hex(tc.baseURL), verifh.Hex(tc.scheme), c10Toks(sets), c10Obs(tc.obsDump), c10Obs(tc.obsTrace), map[bool]string{true: "-", false: "1"}[tc.noBodyObs]}, " ")
+		c10Pairs(rawQ), c10Pairs(tc.pathParams), c10Pairs(tc.cPathParams), verifh.Hex(tc.baseURL), verifh.Hex(tc.scheme), c10Toks(sets), c10Obs(tc.obsDump), c10Obs(tc.obsTrace), map[bool]string{true: "-", false: "1"}[tc.noBodyObs], pre}, " ")
 }
 
 // urlTemplate splits the RawURL of the case into what the model is given: how it starts, the path
@@ -415,6 +457,23 @@ type c10Run struct {
 	sendStart   []int        // index into log where each Do call begins
 	sendStartRA []int        // RetryAttempt when each Do call begins
 	sendWires   []int        // len(wires) when each Do call begins
+	unrepAt     int          // len(wires) when a callback installed an unreplayable body / upload, +1 (0: never)
+}
+
+// install: a middleware / hook changes the KIND of the body while the call is in flight.
+func (x *c10Run) install(kind byte, text string) {
+	x.mutated = true
+	switch kind {
+	case 'R':
+		x.req.SetBody(bytes.NewBufferString(text))
+	case 'F':
+		x.req.SetFileReader("hp", "h.txt", bytes.NewBufferString(text))
+	default:
+		panic("c10: bad install " + string(kind))
+	}
+	if x.unrepAt == 0 {
+		x.unrepAt = len(x.wires) + 1
+	}
 }
 
 func (x *c10Run) outcome(i int) string {
@@ -443,6 +502,20 @@ func (x *c10Run) RoundTrip(r *http.Request) (*http.Response, error) {
 	// responses and errors are tagged with the RetryAttempt of the attempt that produced them
 	// (= the pass index k as long as the Request is sent once; a re-sent Request goes on counting)
 	ra := x.req.RetryAttempt
+	if k < len(x.tc.real) && x.tc.real[k] != "" {
+		cause, cs, _ := strings.Cut(x.tc.real[k], "/")
+		switch cs {
+		case "canceled":
+			x.ctx.finish(context.Canceled)
+		case "expired":
+			x.ctx.finish(context.DeadlineExceeded)
+		}
+		if cause != "none" {
+			kind := map[string]string{"transport": "t", "clientTimeout": "d", "netTimeout": "d", "ctxDeadline": "d", "ctxCanceled": "c"}[cause]
+			return nil, &c10Err{kind, ra, c10RealErr(cause)}
+		}
+		o = "s" + strings.TrimLeft(o, "sL") // the response itself; the context has been dealt with
+	}
 	switch o[0] {
 	case 't':
 		return nil, &c10Err{"t", ra, nil}
@@ -458,6 +531,9 @@ func (x *c10Run) RoundTrip(r *http.Request) (*http.Response, error) {
 		return nil, &c10Err{"d", ra, context.DeadlineExceeded}
 	case 'L': // the response arrives, then the caller cancels the context
 		x.ctx.finish(context.Canceled)
+	case 'T': // a transport error that has nothing to do with the context; the caller cancels right after
+		x.ctx.finish(context.Canceled)
+		return nil, &c10Err{"t", ra, nil}
 	}
 	code, _ := strconv.Atoi(o[1:])
 	content := "ok"
@@ -471,6 +547,83 @@ func (x *c10Run) RoundTrip(r *http.Request) (*http.Response, error) {
 	return &http.Response{StatusCode: code, Status: strconv.Itoa(code) + " X", Proto: "HTTP/1.1", ProtoMajor: 1, ProtoMinor: 1,
 		Header:        hdr,
 		ContentLength: int64(len(content)), Body: io.NopCloser(strings.NewReader(content)), Request: r}, nil
+}
+
+// ---- error kinds x context states (round 5)
+
+var c10Causes = []string{"none", "transport", "clientTimeout", "netTimeout", "ctxDeadline", "ctxCanceled"}
+var c10CtxStates = []string{"alive", "canceled", "expired"}
+
+var (
+	c10RealOnce          sync.Once
+	c10ClientTimeoutErr  error
+	c10DialTimeoutErr    error
+	c10RealErrsCollected string
+)
+
+// c10RealErr hands out a REAL error value of the kind: what net/http returns when Client.Timeout
+// fires, what package net returns for a dial that times out — produced once against a loopback
+// listener that never answers — a connection reset, and the context's own errors as the
+// transports wrap them.
+func c10RealErr(cause string) error {
+	c10RealOnce.Do(func() {
+		ln, err := net.Listen("tcp", "127.0.0.1:0")
+		if err != nil {
+			c10RealErrsCollected = "listen: " + err.Error()
+			return
+		}
+		defer ln.Close()
+		go func() {
+			for {
+				c, err := ln.Accept()
+				if err != nil {
+					return
+				}
+				defer c.Close() // held open, never answered
+			}
+		}()
+		_, c10ClientTimeoutErr = (&http.Client{Timeout: 30 * time.Millisecond}).Get("http://" + ln.Addr().String() + "/")
+		_, c10DialTimeoutErr = (&net.Dialer{Timeout: time.Nanosecond}).Dial("tcp", ln.Addr().String())
+	})
+	switch cause {
+	case "transport":
+		return &net.OpError{Op: "read", Net: "tcp", Err: syscall.ECONNRESET}
+	case "clientTimeout":
+		return c10ClientTimeoutErr
+	case "netTimeout":
+		return c10DialTimeoutErr
+	case "ctxDeadline":
+		return &url.Error{Op: "Post", URL: "http://c10.test/", Err: context.DeadlineExceeded}
+	case "ctxCanceled":
+		return &url.Error{Op: "Post", URL: "http://c10.test/", Err: context.Canceled}
+	}
+	return nil
+}
+
+// c10AttSym: the script symbol of an attempt of that cause that leaves the context in that state
+// (the harness's own table; the model's is Req.RetryKinds.Att.outcome, compared through `c10kind`).
+func c10AttSym(cause, ctx string, code int) string {
+	switch {
+	case cause == "none" && ctx == "alive":
+		return "s" + strconv.Itoa(code)
+	case cause == "none":
+		return "L" + strconv.Itoa(code)
+	case cause == "ctxCanceled":
+		return "c"
+	case cause == "transport" && ctx == "alive":
+		return "t"
+	case cause == "transport":
+		return "T"
+	case cause == "ctxDeadline":
+		return "D"
+	case ctx == "alive":
+		return "d"
+	}
+	return "D"
+}
+
+func c10Coherent(cause, ctx string) bool {
+	return (cause != "ctxDeadline" || ctx == "expired") && (cause != "ctxCanceled" || ctx == "canceled")
 }
 
 // c10SetCookies adds the Set-Cookie headers a script token asks for (`…^name:value+name:`; an
@@ -629,6 +782,10 @@ func (x *c10Run) hookStub(id int) RetryHookFunc {
 			x.req.SetBodyBytes([]byte(verifh.UnHex(a[1:])))
 			return
 		}
+		if a[0] == 'R' || a[0] == 'F' {
+			x.install(a[0], verifh.UnHex(a[1:]))
+			return
+		}
 		k, v, _ := strings.Cut(a[1:], ":")
 		k, v = verifh.UnHex(k), verifh.UnHex(v)
 		switch a[0] {
@@ -743,6 +900,12 @@ func (x *c10Run) build(dir string) (*Client, *Request) {
 		if x.outcome(x.iter-1) == "e" {
 			return &c10Err{"e", r.RetryAttempt, nil}
 		}
+		if p := tc.pre; p != "" {
+			body, at, _ := strings.Cut(p[1:], "@")
+			if j, _ := strconv.Atoi(at); j == r.RetryAttempt {
+				x.install(p[0], body)
+			}
+		}
 		return nil
 	})
 	hasZ := false
@@ -842,6 +1005,9 @@ func (x *c10Run) build(dir string) (*Client, *Request) {
 	if tc.multipart {
 		r.EnableForceMultipart()
 	}
+	if tc.chunked {
+		r.EnableForceChunkedEncoding()
+	}
 	for i, f := range tc.files {
 		content := f.content
 		switch f.kind {
@@ -860,6 +1026,14 @@ func (x *c10Run) build(dir string) (*Client, *Request) {
 				panic(err)
 			}
 			r.SetFile(f.param, p)
+		case "k": // SetFileUpload, GetFileContent hands out the SAME seekable reader every time
+			sh := c10Shared{strings.NewReader(content)}
+			r.SetFileUpload(FileUpload{ParamName: f.param, FileName: f.name, ContentType: f.ctype,
+				GetFileContent: func() (io.ReadCloser, error) { return sh, nil }})
+		case "q": // … the same reader, not seekable
+			sh := io.NopCloser(bytes.NewBufferString(content))
+			r.SetFileUpload(FileUpload{ParamName: f.param, FileName: f.name, ContentType: f.ctype,
+				GetFileContent: func() (io.ReadCloser, error) { return sh, nil }})
 		case "s":
 			r.SetFileReader(f.param, f.name, strings.NewReader(content))
 		case "r":
@@ -1183,6 +1357,11 @@ func (x *c10Run) oracle() (ok bool, why string) {
 	if x.keptBad != "" {
 		return fail(x.keptBad)
 	}
+	// a body that cannot be sent again, installed by a callback while the call was in flight: the
+	// attempt that reads it is the last one
+	if x.unrepAt > 0 && len(x.wires) > x.unrepAt {
+		return fail(fmt.Sprintf("%d attempts although an unreplayable body / upload was installed in flight before attempt %d went out", len(x.wires), x.unrepAt-1))
+	}
 	if tc.dynamic() {
 		return x.oracleDyn()
 	}
@@ -1208,7 +1387,7 @@ func (x *c10Run) oracle() (ok bool, why string) {
 	}
 	// every attempt identical unless a hook edited the request — apart from the cookies the origin
 	// itself has stored in the jar meanwhile, which must be exactly those
-	if !x.mutated {
+	if !x.mutated && !tc.brokenContract() {
 		names := tc.jarNames()
 		w0, _ := c10SplitJar(x.wires0(), names)
 		for i := 1; i < len(x.wires); i++ {
@@ -1226,7 +1405,7 @@ func (x *c10Run) oracle() (ok bool, why string) {
 	if x.iter >= 1 && x.iter-1 < len(tc.script) {
 		lastOut = tc.script[x.iter-1]
 	}
-	ctxDoneLast := lastOut == "D" || (lastOut != "" && lastOut[0] == 'L')
+	ctxDoneLast := lastOut == "D" || lastOut == "T" || (lastOut != "" && lastOut[0] == 'L')
 	// a wait that finds the context done follows one more round of hooks + interval call
 	if x.enabled && len(x.ivAtt) != retries && !(ctxDoneLast && len(x.ivAtt) == retries+1) {
 		return fail(fmt.Sprintf("%d interval calls for %d retries", len(x.ivAtt), retries))
@@ -1260,10 +1439,10 @@ func (x *c10Run) oracle() (ok bool, why string) {
 	last := x.iter - 1
 	for k := 0; k <= last && k < len(tc.script); k++ {
 		o := tc.script[k]
-		if k < last && (o == "c" || o == "e" || o == "D" || o[0] == 'L') {
+		if k < last && (o == "c" || o == "e" || o == "D" || o == "T" || o[0] == 'L') {
 			return fail(fmt.Sprintf("attempt after outcome %s of iteration %d (context done / middleware error)", o, k))
 		}
-		if noConds && x.enabled && o != "c" && o != "e" && o != "D" && o[0] != 'L' {
+		if noConds && x.enabled && x.unrepAt == 0 && o != "c" && o != "e" && o != "D" && o != "T" && o[0] != 'L' {
 			abort := false
 			for _, p := range tc.after {
 				// the stub predicates only read status / error presence / attempt number
@@ -1422,7 +1601,7 @@ func (x *c10Run) oracleDyn() (bool, string) {
 				}
 			}
 		}
-		if !x.mutated {
+		if !x.mutated && !tc.brokenContract() {
 			names := tc.jarNames()
 			for i := x.sendWires[si] + 1; i < wEnd; i++ {
 				a, _ := c10SplitJar(x.wires[i], names)
@@ -1603,7 +1782,7 @@ func c10Exec(tc *c10Case, dir string) c10Rec {
 
 // ---------------------------------------------------------------------------- generators
 
-var c10Alphabet = []string{"s200", "s503", "t", "c", "z", "e", "b500", "d", "D", "L503", "s404", "b200", "s301", "s429", "L200"}
+var c10Alphabet = []string{"s200", "s503", "t", "c", "z", "e", "b500", "d", "D", "L503", "s404", "b200", "s301", "s429", "L200", "T"}
 
 func c10Simple() *c10Case {
 	return &c10Case{allowGet: true, method: "GET", url: "http://c10.test/p", body: "n"}
@@ -1613,7 +1792,7 @@ func c10Simple() *c10Case {
 // retry counts x policy configurations, on a plain request; then random policies.
 func TestVerif_C10_loop(t *testing.T) {
 	s := verifh.New(t, "C10", "loop",
-		"exhaustive: outcome sequences over {200,503,transport error,cancelled,(nil,err) wrapper,middleware error,bad body,deadline error,deadline of the request context passed,response then cancel} up to depth 3 (quick) / 5 (thorough), over a 4-symbol alphabet up to depth 6, x MaxRetries {-1,0,1,2,5,unset} x policy {default rule, one condition, two conditions, request-level response middleware}; then random client/request Set/Add op lists (conditions, hooks, interval functions incl. fixed/backoff/default), random failing response middleware; SIBLINGS: 0..9 client-level Add calls (slice capacities with and without spare room) x a second request of the same client / a Client.Clone configured with its own Add/Set calls after the request under test and before it is sent; non-trivial = at least one retry")
+		"exhaustive: outcome sequences over {200,503,transport error,cancelled,(nil,err) wrapper,middleware error,bad body,deadline error,deadline of the request context passed,response then cancel} up to depth 3 (quick) / 5 (thorough), over a 4-symbol alphabet up to depth 6, x MaxRetries {-1,0,1,2,5,unset} x policy {default rule, one condition, two conditions, request-level response middleware}; then random client/request Set/Add op lists (conditions, hooks, interval functions incl. fixed/backoff/default), random failing response middleware; SIBLINGS: 0..9 client-level Add calls (slice capacities with and without spare room) x a second request of the same client / a Client.Clone configured with its own Add/Set calls after the request under test and before it is sent; ERROR KIND x CONTEXT STATE: exhaustive scripts over {t,d,T,D,c,L503,s503,s200} and every coherent (cause in {none,transport,Client.Timeout,net timeout,ctx deadline,ctx cancel}, context in {alive,canceled,expired}) pair alone and in pairs with REAL error values of that kind, x counts x policies; c10kind lines tie the cause/context table and errors.Is; non-trivial = at least one retry")
 	r := s.Rand()
 	dir := t.TempDir()
 	var recs []c10Rec
@@ -1646,6 +1825,12 @@ func TestVerif_C10_loop(t *testing.T) {
 	}
 	gen(c10Alphabet[:10], verifh.N(3, 4), nil)
 	gen([]string{"s200", "s503", "t", "c"}, verifh.N(4, 6), nil)
+	// error KIND of the attempt x STATE of the request's context when the decision is made: a
+	// transport error / an error matching DeadlineExceeded (the client's per-attempt timeout, a dial
+	// or TLS timeout) with the context alive (t, d), the same with the context done (T, D), the
+	// context's own cancellation (c), a response with the context done (L) — the decision must read
+	// the context, never the kind of the error
+	gen([]string{"t", "d", "T", "D", "c", "L503", "s503", "s200"}, verifh.N(2, 3), nil)
 	seen := map[string]bool{}
 	for _, sq := range seqs {
 		key := strings.Join(sq, ",")
@@ -1680,6 +1865,62 @@ func TestVerif_C10_loop(t *testing.T) {
 		}
 	}
 	s.Count("exhaustive-cases")
+	// error KIND x context STATE with REAL error values: every coherent (cause, context state)
+	// pair, alone and followed by a second one, x counts x policies; the model is given the script
+	// symbols its own table (`c10kind` = Att.outcome) assigns, the scripted transport returns the
+	// real errors — a decision that reads "looks like a deadline" off the error instead of asking
+	// the context shows here
+	{
+		type att struct{ cause, ctx string }
+		var atts []att
+		b2 := func(b bool) string { return map[bool]string{true: "1", false: "0"}[b] }
+		for _, ca := range c10Causes {
+			for _, cs := range c10CtxStates {
+				code := 503
+				e := c10RealErr(ca)
+				if ca != "none" && e == nil {
+					t.Fatalf("no real error value for cause %s (%s)", ca, c10RealErrsCollected)
+				}
+				impl := c10AttSym(ca, cs, code) + " dl=" + b2(errors.Is(e, context.DeadlineExceeded)) + " cn=" + b2(errors.Is(e, context.Canceled)) + " coh=" + b2(c10Coherent(ca, cs))
+				s.Case("c10kind "+ca+" "+cs+" "+strconv.Itoa(code), impl, true, "", true, "attempt cause="+ca+" context="+cs+" -> "+impl)
+				s.Count("kind:" + ca)
+				if c10Coherent(ca, cs) {
+					atts = append(atts, att{ca, cs})
+				}
+			}
+		}
+		var seqs2 [][]att
+		for _, a := range atts {
+			seqs2 = append(seqs2, []att{a})
+			for _, b := range atts {
+				seqs2 = append(seqs2, []att{a, b})
+			}
+		}
+		for qi, sq := range seqs2 {
+			for pi, p := range pols {
+				for ci, cnt := range counts {
+					if !verifh.Thorough() && len(sq) > 1 && (qi+pi+ci)%3 != 0 {
+						continue
+					}
+					tc := c10Simple()
+					for _, a := range sq {
+						tc.script = append(tc.script, c10AttSym(a.cause, a.ctx, 503))
+						tc.real = append(tc.real, a.cause+"/"+a.ctx)
+					}
+					tc.script = append(tc.script, "c")
+					tc.clientOps = append([]string{}, p.clientOps...)
+					tc.reqOps = append([]string{}, p.reqOps...)
+					tc.conds, tc.hooks, tc.after = p.conds, p.hooks, p.after
+					if cnt != "" {
+						tc.reqOps = append(tc.reqOps, cnt)
+					}
+					tc.useSend = (pi+ci)%2 == 1
+					recs = append(recs, c10Exec(tc, dir))
+					s.Count("kinds-real")
+				}
+			}
+		}
+	}
 	// Set vs Add, systematically: every client-level op list x request-level op list of length
 	// <= 2 over {Set, Add} x two stubs, once for conditions and once for hooks
 	var opLists [][]string
@@ -2283,7 +2524,10 @@ func c10RandShape(r interface{ Intn(int) int }, tc *c10Case, origin string, scri
 		mode = "multipart-files"
 		for i := 0; i < 1+r.Intn(3); i++ {
 			f := c10File{param: "p" + strconv.Itoa(i), name: "f" + strconv.Itoa(i) + ".txt", content: c10Text(strings.Repeat(c10Word(r, true), 1+r.Intn(3)))}
-			switch k := r.Intn(23); {
+			// content SOURCES: a fresh reader per call (b, p reopens), the same seekable reader
+			// (s through SetFileReader, k through a caller-written GetFileContent), the same reader
+			// that cannot be rewound (r, o: refused when retries are on; q: caller-written)
+			switch k := r.Intn(30); {
 			case k < 6:
 				f.kind = "b"
 				if r.Intn(3) == 0 {
@@ -2295,8 +2539,15 @@ func c10RandShape(r interface{ Intn(int) int }, tc *c10Case, origin string, scri
 				f.kind = "s"
 			case k < 20:
 				f.kind = "r"
-			default:
+			case k < 23:
 				f.kind = "o"
+			case k < 28:
+				f.kind = "k"
+				if r.Intn(4) == 0 {
+					f.ctype = "application/x-custom"
+				}
+			default:
+				f.kind = "q"
 			}
 			if r.Intn(12) == 0 {
 				f.content = c10Text(strings.Repeat("0123456789abcdef", 40)) // longer than the 512-byte sniff
@@ -2315,6 +2566,8 @@ func c10RandShape(r interface{ Intn(int) int }, tc *c10Case, origin string, scri
 		tc.multipart = true
 		tc.form = form("f")
 	}
+	// buffered or streamed (a pipe written by a goroutine, chunked on the wire): same content
+	tc.chunked = tc.multipart && r.Intn(3) == 0
 	// client-level form data (merged once; since /repo c422765 also into multipart requests)
 	if r.Intn(3) == 0 {
 		tc.cForm = form([]string{"cf", "f"}[r.Intn(2)])
@@ -2328,7 +2581,7 @@ func c10RandShape(r interface{ Intn(int) int }, tc *c10Case, origin string, scri
 // TestVerif_C10_wire: what successive attempts put on the wire, over request shapes.
 func TestVerif_C10_wire(t *testing.T) {
 	s := verifh.New(t, "C10", "wire",
-		"random request shapes: client- and request-level cookies, headers (shared keys, Content-Type at either level), query (request key overriding a client key, multi-valued), form data (map and ordered, client-level merge, values with characters that need escaping), bodies (none, bytes/string, GetBody func, marshalled map, io.Reader), multipart (fields only; files from bytes / path / seekable reader / non-rewindable reader, explicit and sniffed part content types, > 512-byte files), methods incl. payload-forbidden ones, trace and dump on; x retry count {-1,0,1,2,5} at either level x scripts of 1-4 failing outcomes then success; some hooks edit the request; every attempt's decoded wire request is compared with the model and with attempt 0; non-trivial = at least one retry")
+		"random request shapes: client- and request-level cookies, headers (shared keys, Content-Type at either level), query (request key overriding a client key, multi-valued), form data (map and ordered, client-level merge, values with characters that need escaping), bodies (none, bytes/string, GetBody func, marshalled map, io.Reader), multipart (fields only; files from bytes / path / seekable reader / non-rewindable reader, explicit and sniffed part content types, > 512-byte files), methods incl. payload-forbidden ones, trace and dump on; x retry count {-1,0,1,2,5} at either level x scripts of 1-4 failing outcomes then success; some hooks edit the request; FILE CONTENT SOURCES (fresh reader per call, reopened path, SetFileReader seeker / non-rewindable / closer, caller-written GetFileContent handing out the same seekable / non-seekable reader) x buffered or streamed (pipe, chunked) multipart x retries, systematically and at random; BODY KIND CHANGED IN FLIGHT: an io.Reader body or a non-rewindable file reader installed by an OnBeforeRequest middleware at attempt 0/1/2 or by a retry hook, over 5 request shapes x counts incl. -1, payload-forbidden methods included; every attempt's decoded wire request is compared with the model and with attempt 0; non-trivial = at least one retry")
 	r := s.Rand()
 	dir := t.TempDir()
 	var recs []c10Rec
@@ -2365,10 +2618,11 @@ func TestVerif_C10_wire(t *testing.T) {
 	// retries switched ON while the call is in flight (a response middleware calls SetRetryCount
 	// on resp.Request) for a request whose body cannot be replayed: Do could not refuse it up
 	// front — there was nothing to retry then
-	for _, body := range []string{"rdata-from-a-reader", "file:r", "file:o", "bbytes"} {
+	// (also under a payload-forbidden method: the body is never sent, the request stays flagged)
+	for bi, body := range []string{"rdata-from-a-reader", "file:r", "file:o", "bbytes", "rdata-from-a-reader", "rdata-from-a-reader", "file:r"} {
 		for _, n0 := range []string{"", "n=0"} {
 			for _, e := range []string{"c2", "c-1", "c1@0"} {
-				tc := &c10Case{allowGet: true, method: "POST", url: "http://c10.test/up", body: "n", after: []string{"F~" + e},
+				tc := &c10Case{allowGet: bi != 5, method: []string{"POST", "POST", "POST", "POST", "OPTIONS", "GET", "HEAD"}[bi], url: "http://c10.test/up", body: "n", after: []string{"F~" + e},
 					script: []string{"t", "t", "s200", "c"}}
 				if n0 != "" {
 					tc.reqOps = []string{n0, "i=x0"}
@@ -2380,6 +2634,68 @@ func TestVerif_C10_wire(t *testing.T) {
 					tc.body = body
 				}
 				add(tc, "enabled-in-flight")
+			}
+		}
+	}
+	// file content SOURCES x retries x buffered / streamed multipart, systematically: every source
+	// kind alone and next to a second upload, sniffed and explicit part type, short and > 512 bytes
+	for _, kind := range []string{"b", "p", "s", "k", "q", "r", "o"} {
+		for _, chunked := range []bool{false, true} {
+			for _, cnt := range []string{"n=2", "n=-1", "n=0", ""} {
+				for v := 0; v < 3; v++ {
+					tc := &c10Case{allowGet: true, method: "POST", url: "http://c10.test/up", body: "n", multipart: true, chunked: chunked,
+						script: []string{"t", "s503", "t", "s200", "c"}, conds: []string{"E", "G500"}}
+					if cnt != "" {
+						tc.reqOps = []string{cnt, "i=x0", "ac0", "ac1"}
+					}
+					f := c10File{param: "p0", name: "f0.txt", kind: kind, content: c10Text("content-of-the-upload")}
+					switch v {
+					case 1:
+						f.content = c10Text(strings.Repeat("0123456789abcdef", 200)) // 3200 bytes: past the 512-byte sniff
+						if kind == "b" || kind == "k" || kind == "q" {
+							f.ctype = "application/x-custom"
+						}
+					case 2:
+						tc.files = append(tc.files, c10File{param: "first", name: "a.txt", kind: "b", content: c10Text("first-upload")})
+						tc.form = []c10KV{{"f0", []string{"v"}}}
+					}
+					tc.files = append(tc.files, f)
+					add(tc, "sources:"+kind)
+					count(fmt.Sprintf("sources:chunked=%v", chunked))
+				}
+			}
+		}
+	}
+	// the body KIND changes while the call is in flight: an io.Reader body / a non-rewindable file
+	// reader installed by an OnBeforeRequest middleware at attempt j, or by a retry hook — Do's
+	// up-front check has passed, the loop's own check must stop the retries after the attempt that
+	// read it (without bound otherwise for a negative count)
+	for _, shape := range []string{"n", "bbytes-body", "ufrom-getbody", "form", "fields"} {
+		for _, inst := range []string{"hR", "hF", "pR@0", "pR@1", "pR@2", "pF@0", "pF@1"} {
+			for _, cnt := range []string{"n=-1", "n=2", "n=5", "n=1"} {
+				if inst == "pR@0" && shape[0] == 'b' {
+					continue // r.Body still holds the bytes set before: the sniffed Content-Type is theirs (not modelled)
+				}
+				tc := &c10Case{allowGet: true, method: []string{"POST", "PUT", "PATCH"}[len(recs)%3], url: "http://c10.test/kind", body: "n",
+					script: []string{"t", "s503", "t", "t", "s200", "c"}, conds: []string{"E", "G500"}, reqOps: []string{cnt, "i=x0", "ac0", "ac1"}}
+				switch shape {
+				case "form":
+					tc.form = []c10KV{{"f0", []string{"v"}}}
+				case "fields":
+					tc.multipart = true
+					tc.form = []c10KV{{"f0", []string{"v"}}}
+				default:
+					tc.body = shape
+				}
+				text := c10Text("installed-in-flight")
+				if inst[0] == 'h' {
+					tc.hooks = []string{inst[1:2] + verifh.Hex(text)}
+					tc.reqOps = append(tc.reqOps, "ah0")
+				} else {
+					tc.pre = inst[1:2] + text + inst[2:]
+				}
+				add(tc, "kind-changed")
+				count("kind-changed:" + inst)
 			}
 		}
 	}
@@ -2407,7 +2723,7 @@ func TestVerif_C10_wire(t *testing.T) {
 				tc.script = append(tc.script, []string{"t", "t", "d", "b500", "z"}[r.Intn(5)])
 			}
 		}
-		tc.script = append(tc.script, []string{"s200", "s200", "s404", "t"}[r.Intn(4)], "c")
+		tc.script = append(tc.script, []string{"s200", "s200", "s404", "t", "T", "s200"}[r.Intn(6)], "c")
 		if r.Intn(5) == 0 {
 			// the origin sets / replaces / expires cookies: the jar's cookies go out with the NEXT attempt
 			for j, o := range tc.script {
@@ -2457,6 +2773,30 @@ func TestVerif_C10_wire(t *testing.T) {
 		if r.Intn(10) == 0 {
 			tc.after = []string{"F"}
 		}
+		// the body kind changed in flight, on random shapes (not where a marshalled / reader body
+		// decides what is sent: see the notes), payload-forbidden methods included
+		if len(tc.hooks) == 0 && len(tc.resend) == 0 &&
+			(tc.body[0] == 'n' || tc.body[0] == 'b' || tc.body[0] == 'u') && r.Intn(8) == 0 {
+			text := c10Text(c10Word(r, true))
+			kind := []string{"R", "F"}[r.Intn(2)]
+			if r.Intn(2) == 0 {
+				tc.hooks = []string{kind + verifh.Hex(text)}
+				tc.reqOps = append(tc.reqOps, "ah0")
+			} else {
+				j := r.Intn(3)
+				if j == 0 && kind == "R" && tc.body[0] == 'b' {
+					j = 1
+				}
+				tc.pre = kind + text + "@" + strconv.Itoa(j)
+			}
+			count("kind-changed:random")
+		}
+		if tc.chunked {
+			count("multipart:streamed")
+		}
+		for _, f := range tc.files {
+			count("file-kind:" + f.kind)
+		}
 		// the retry option edited / the context cancelled in flight, on real request shapes
 		c10RandEdits(r, tc, 8)
 		if tc.dynamic() {
@@ -2465,7 +2805,8 @@ func TestVerif_C10_wire(t *testing.T) {
 		add(tc, mode)
 	}
 	for _, need := range []string{"retried:bytes", "retried:form", "retried:ordered", "retried:multipart-files", "retried:multipart-fields", "retried:getbody", "retried:marshal", "retried:marshal-xml", "retried:none", "refused", "mode:reader",
-		"url:r", "url:s", "url:placeholder", "url:raw-query", "multipart+clientform", "header-order", "jar:set-cookie", "resend"} {
+		"url:r", "url:s", "url:placeholder", "url:raw-query", "multipart+clientform", "header-order", "jar:set-cookie", "resend",
+		"retried:sources:k", "retried:sources:q", "retried:sources:s", "retried:sources:p", "retried:sources:b", "sources:chunked=true", "retried:kind-changed", "kind-changed:random", "multipart:streamed", "file-kind:k", "file-kind:q"} {
 		if hist[need] == 0 {
 			t.Errorf("generator never reached bucket %s", need)
 		}
